@@ -216,7 +216,7 @@ func newSysInterval(checkUpdateInterval time.Duration) *sys {
 }
 
 func svc(id string, port int) *structs.NodeService {
-	return &structs.NodeService{ID: id, Service: id + "-svc", Port: port, Tags: []string{"t"}, Weights: &structs.Weights{Passing: 1, Warning: 1},
+	return &structs.NodeService{ID: id, Service: id + "-svc", Port: port, Tags: []string{"t", "u"}, Weights: &structs.Weights{Passing: 1, Warning: 1},
 		EnterpriseMeta: *structs.DefaultEnterpriseMetaInDefaultPartition()}
 }
 func chk(id, svcID, status string) *structs.HealthCheck {
@@ -224,7 +224,7 @@ func chk(id, svcID, status string) *structs.HealthCheck {
 		EnterpriseMeta: *structs.DefaultEnterpriseMetaInDefaultPartition()}
 	if svcID != "" {
 		c.ServiceName = svcID + "-svc"
-		c.ServiceTags = []string{"t"}
+		c.ServiceTags = []string{"t", "u"}
 	}
 	return c
 }
@@ -709,6 +709,49 @@ func runScenario(sc scenario, alpha []op) result {
 	lsvc, lchk = s.localView()
 	if d := append(mapDiff("service", lsvc, csvc), mapDiff("check", lchk, cchk)...); len(d) > 0 {
 		res.viol = append(res.viol, [2]string{"C16:not-converged-after-second-full-sync:" + classify(d), strings.Join(d, "; ")})
+		return res
+	}
+	// one more perturbation of a converged system: every service is registered again with the same set of tags in
+	// reverse order (a change of the definition like any other; services whose tags the servers own are left alone)
+	var sids []string
+	for id := range s.l.AllServices() {
+		sids = append(sids, id.ID)
+	}
+	sort.Strings(sids)
+	reordered := 0
+	for _, id := range sids {
+		st := s.l.ServiceState(sid(id))
+		if st == nil || st.Deleted || st.Service.EnableTagOverride || len(st.Service.Tags) < 2 {
+			continue
+		}
+		ns := *st.Service
+		ns.Tags = nil
+		for i := len(st.Service.Tags) - 1; i >= 0; i-- {
+			ns.Tags = append(ns.Tags, st.Service.Tags[i])
+		}
+		// as Agent.addServiceLocked does: the service's checks are registered again with it and carry its tags
+		var hcs []*structs.HealthCheck
+		for _, c := range s.l.ChecksForService(sid(id), false) {
+			hc := *c
+			hc.ServiceTags = ns.Tags
+			hcs = append(hcs, &hc)
+		}
+		sort.Slice(hcs, func(i, j int) bool { return hcs[i].CheckID < hcs[j].CheckID })
+		if err := s.l.AddServiceWithChecks(&ns, hcs, st.Token, false); err == nil {
+			reordered++
+		}
+	}
+	if reordered == 0 {
+		return res
+	}
+	if err := s.l.SyncFull(); err != nil {
+		res.viol = append(res.viol, [2]string{"C16:clean-full-sync-fails", "third clean SyncFull returned " + err.Error()})
+		return res
+	}
+	csvc, cchk = s.catalog()
+	lsvc, lchk = s.localView()
+	if d := append(mapDiff("service", lsvc, csvc), mapDiff("check", lchk, cchk)...); len(d) > 0 {
+		res.viol = append(res.viol, [2]string{"C16:not-converged-after-reordering-tags:" + classify(d), strings.Join(d, "; ")})
 	}
 	return res
 }
